@@ -260,6 +260,17 @@ func VH_C20(vm *VM, inst int) {
 		case 3:
 			fault = cl("p", 'c') // discontiguity when placed after q or r; harmless inside the p run
 		}
+		// optionally a declaration first: for a predicate the earlier load did not define (r/0) or one it did (p/1)
+		switch choice("decl", 5) {
+		case 1:
+			items = append(items, decl("dynamic", "r"))
+		case 2:
+			items = append(items, decl("dynamic", "p"))
+		case 3:
+			items = append(items, decl("multifile", "r"))
+		case 4:
+			items = append(items, decl("discontiguous", "r"))
+		}
 		items = append(items, base[:pos]...)
 		items = append(items, fault)
 		items = append(items, base[pos:]...)
@@ -308,6 +319,7 @@ func VH_C20(vm *VM, inst int) {
 	text := c20Text(items)
 	note("text", text)
 	want, ok, inits := c20RefLoad(ref0, items)
+	nprocs := len(vm.procedures)
 	err := vm.Compile(context.Background(), text)
 	after := c20Observe(vm)
 	if ok {
@@ -327,6 +339,7 @@ func VH_C20(vm *VM, inst int) {
 	} else {
 		verify(err != nil, "a faulty text loaded without an error")
 		verify(c20Same(after, before, true), "a failed load changed the database (some of the text's clauses became visible or earlier definitions changed)")
+		verify(len(vm.procedures) == nprocs, "a failed load added or removed a procedure")
 		reach("c20/failed-load-leaves-db", true)
 	}
 	// initialization goals run after a successful load only
